@@ -1614,7 +1614,10 @@ def stream_optree(ctx, model):
         cplx = bool(rng.random() < 0.6)
         dt = np.complex128 if cplx else np.float64
         n, m = int(rng.integers(1, 4)), int(rng.integers(1, 4))
-        t = _gen_optree(rng, n, m, cplx, int(rng.integers(1, ctx.n(3, 4))))
+        # depth <= 2 in BOTH tiers: the executable model represents vectors as closures, so `comp` re-evaluates its inner
+        # tree once per entry read and the cost grows exponentially with the nesting (a depth-3 chain of compositions took
+        # the driver > 40 CPU-minutes); the theorem C07_operator_tree is for every depth, the tie samples depth 1..2
+        t = _gen_optree(rng, n, m, cplx, int(rng.integers(1, 3)))
         u, v, w = G.dy(rng, (n,), cplx, bits=2, scale=1.0), G.dy(rng, (n,), cplx, bits=2, scale=1.0), G.dy(rng, (m,), cplx, bits=2, scale=1.0)
         conjugate = bool(rng.random() < 0.6)
         case = {"tree": t, "n": n, "m": m, "cplx": cplx, "u": G.enc(u), "v": G.enc(v), "w": G.enc(w), "conjugate": conjugate}
